@@ -473,6 +473,11 @@ impl StreamInfo {
         channels: usize,
         bits_per_sample: usize,
     ) -> Result<Self, VerifyError> {
+        // Ranges are checked before narrowing so that out-of-range values
+        // are not wrapped into the valid range.
+        verify_range!("sample_rate", sample_rate, ..=96_000)?;
+        verify_range!("channels", channels, 1..=MAX_CHANNELS)?;
+        verify_bps!("bits_per_sample", bits_per_sample)?;
         let ret = Self {
             min_block_size: u16::MAX,
             max_block_size: 0,
@@ -1616,10 +1621,16 @@ impl FrameHeader {
         sample_rate: usize,
         offset: FrameOffset,
     ) -> Result<Self, VerifyError> {
-        verify_block_size!("block_size", block_size)?;
+        verify_range!(
+            "block_size",
+            block_size,
+            1..=(crate::constant::MAX_BLOCK_SIZE)
+        )?;
         let block_size_spec = BlockSizeSpec::from_size(block_size as u16);
-        let sample_size_spec =
-            SampleSizeSpec::from_bits(bits_per_sample as u8).ok_or_else(|| {
+        let sample_size_spec = u8::try_from(bits_per_sample)
+            .ok()
+            .and_then(SampleSizeSpec::from_bits)
+            .ok_or_else(|| {
                 VerifyError::new("bits_per_sample", "must be one of a supported value.")
             })?;
         verify_true!(
@@ -1628,7 +1639,9 @@ impl FrameHeader {
             "32-bit encoding is not supported currently."
         )?;
         channel_assignment.verify()?;
-        let sample_rate_spec = SampleRateSpec::from_freq(sample_rate as u32)
+        let sample_rate_spec = u32::try_from(sample_rate)
+            .ok()
+            .and_then(SampleRateSpec::from_freq)
             .ok_or_else(|| VerifyError::new("sample_rate", "must be in a supported range."))?;
         let mut ret = Self::from_specs(
             block_size_spec,
